@@ -663,7 +663,7 @@ func (ie IndexExpression) PrettyPrint(out *PrintState) *PrintState {
 		out.Print("(")
 	}
 	ie.Left.PrettyPrint(out)
-	if ie.Token.Type() == token.DOT && dotNeedsSpaces(ie) {
+	if ie.Token.Type() == token.DOT && dotNeedsSpaces(ie, out.last) {
 		out.Print(" . ") // 1.x or a.5 would be lexed as a float.
 	} else {
 		out.Print(ie.Literal())
@@ -697,10 +697,11 @@ func dotIndexNeedsParen(index Node) bool {
 }
 
 // A dot next to a number (accepted by the parser even if it can't evaluate) must not be glued to it.
-func dotNeedsSpaces(ie IndexExpression) bool {
-	switch ie.Left.(type) {
-	case *IntegerLiteral, *FloatLiteral:
-		return true
+func dotNeedsSpaces(ie IndexExpression, last string) bool {
+	if last != "" && (last[len(last)-1] == '.' || (last[len(last)-1] >= '0' && last[len(last)-1] <= '9')) {
+		if _, isID := ie.Left.(*Identifier); !isID { // what precedes the dot ends with a number (x1.a is fine).
+			return true
+		}
 	}
 	first := firstPrinted(ie.Index, LOWEST)
 	return first != "" && (first[0] == '.' || (first[0] >= '0' && first[0] <= '9'))
